@@ -128,14 +128,31 @@ def floor_(x):
 BITW = 40
 
 
+def as_bv(x):
+    """bit-vector view (BITW bits) of a non-negative integer term; BV2Int(bv) terms are unwrapped"""
+    if isinstance(x, int):
+        return z3.BitVecVal(x, BITW)
+    if z3.is_app_of(x, z3.Z3_OP_BV2INT) and x.arg(0).size() == BITW:
+        return x.arg(0)
+    if z3.is_app_of(x, z3.Z3_OP_ITE) and x.sort().kind() == z3.Z3_INT_SORT:
+        return z3.If(x.arg(0), as_bv(x.arg(1)), as_bv(x.arg(2)))
+    if z3.is_int_value(x):
+        return z3.BitVecVal(x.as_long(), BITW)
+    return z3.Int2BV(x, BITW)
+
+
 def _bitop(op, a, b):
     """bitwise ops on mathematical integers: exact when both are concrete; symbolic non-negative operands below 2**BITW go
     through bit-vectors (an obligation `0 <= x < 2**BITW` is recorded by the caller)"""
     if isinstance(a, int) and isinstance(b, int):
         return {"&": a & b, "|": a | b, "^": a ^ b}[op]
-    x, y = z3.Int2BV(to_z3(a), BITW), z3.Int2BV(to_z3(b), BITW)
+    x, y = as_bv(to_z3(a) if not isinstance(a, int) else a), as_bv(to_z3(b) if not isinstance(b, int) else b)
     r = {"&": x & y, "|": x | y, "^": x ^ y}[op]
     return z3.BV2Int(r)
+
+
+def _is_bvint(x):
+    return is_sym(x) and z3.is_app_of(x, z3.Z3_OP_BV2INT)
 
 
 class State:
@@ -283,6 +300,7 @@ class Interp:
             for (s2, it) in self.eval(node.iter, st):
                 if isinstance(it, dict):
                     it = list(it.keys())
+                it = [tuple(x) if isinstance(x, list) else x for x in it] if isinstance(it, list) else it
                 if not isinstance(it, (list, tuple)):
                     raise OutOfSubset("for over a non-concrete iterable")
                 yield from self.exec_for(node, list(it), s2, fn)
@@ -350,8 +368,16 @@ class Interp:
             outer2 = Rec(dict(outer.f), outer.name, outer.tuple_fields)
             outer2.f[tgt.value.attr] = inner2
             st.env[tgt.value.value.id] = outer2
-        elif isinstance(tgt, ast.Subscript):
-            raise OutOfSubset("subscript store")
+        elif isinstance(tgt, ast.Subscript) and isinstance(tgt.value, ast.Name):
+            obj = st.env.get(tgt.value.id)
+            if not isinstance(obj, dict):
+                raise OutOfSubset("subscript store on non-dict")
+            keys = list(self.eval(tgt.slice, st))
+            if len(keys) != 1 or is_sym(keys[0][1]):
+                raise OutOfSubset("symbolic key in subscript store")
+            obj2 = dict(obj)
+            obj2[keys[0][1]] = v
+            st.env[tgt.value.id] = obj2
         else:
             raise OutOfSubset("assignment target %s" % type(tgt).__name__)
 
@@ -529,12 +555,17 @@ class Interp:
         if isinstance(op, ast.LShift):
             if is_sym(b):
                 raise OutOfSubset("symbolic shift amount")
+            if _is_bvint(a) or z3.is_app_of(to_z3(a), z3.Z3_OP_ITE):
+                self.oblige("bitop-range", st, z3.And(a >= 0, a < 2 ** (BITW - b)), "left shift stays below 2^%d" % BITW)
+                return z3.BV2Int(as_bv(a) << b)
             return to_z3(a) * (2 ** b)
         if isinstance(op, ast.RShift):
             if is_sym(b):
                 raise OutOfSubset("symbolic shift amount")
             if to_z3(a).sort().kind() != z3.Z3_INT_SORT:
                 raise OutOfSubset("shift of a non-integer")
+            if _is_bvint(a) or z3.is_app_of(to_z3(a), z3.Z3_OP_ITE):
+                return z3.BV2Int(z3.LShR(as_bv(a), b))
             return to_z3(a) / z3.IntVal(2 ** b)
         if isinstance(op, ast.Pow):
             if is_sym(b) or is_sym(a):
@@ -582,6 +613,8 @@ class Interp:
                     raise OutOfSubset("record %s has no attribute %r" % (obj.name, node.attr))
             elif isinstance(obj, _ModRef):
                 yield (s2, _FnRef(node.attr))
+            elif isinstance(obj, dict) and node.attr in ("items", "keys", "values"):
+                yield (s2, _DictMeth(obj, node.attr))
             else:
                 raise OutOfSubset("attribute %s of %r" % (node.attr, type(obj).__name__))
 
@@ -624,6 +657,12 @@ class Interp:
                     raise OutOfSubset("subscript of %r" % (type(obj).__name__,))
 
     def ev_Call(self, node, st):
+        if isinstance(node.func, ast.Attribute) and node.func.attr == "format" and isinstance(node.func.value, ast.Constant) \
+                and isinstance(node.func.value.value, str):
+            self.dropped.add("str.format (labels/comments)")
+            for (s2, _a) in self.eval_list(list(node.args), st):
+                yield (s2, Opaque())
+            return
         for (s2, fref) in self.eval(node.func, st):
             for (s3, args) in self.eval_list([a for a in node.args if not isinstance(a, ast.Starred)], s2):
                 if any(isinstance(a, ast.Starred) for a in node.args):
@@ -659,6 +698,10 @@ class Interp:
             fn._closure_env = fref.env
             for (pc, ret, _e) in self.call_function(fn, args, kwargs, st):
                 yield (State(st.env, pc), ret)
+            return
+        if isinstance(fref, _DictMeth):
+            d = fref.d
+            yield (st, {"items": list(d.items()), "keys": list(d.keys()), "values": list(d.values())}[fref.which])
             return
         if not isinstance(fref, _FnRef):
             raise OutOfSubset("call of %r" % (fref,))
@@ -709,6 +752,11 @@ class _ModRef:
 class _Bound:
     def __init__(self, obj, fn):
         self.obj, self.fn = obj, fn
+
+
+class _DictMeth:
+    def __init__(self, d, which):
+        self.d, self.which = d, which
 
 
 class _Nested:
